@@ -22,6 +22,12 @@ CC = {
     'gcc-O2-gnu89': ('gcc', ['-O2', '-std=gnu89']),
     'clang-O2-gnu89': ('clang', ['-O2', '-std=gnu89']),
     'clang-O0-gnu89': ('clang', ['-O0', '-std=gnu89']),
+    # strict ISO C90, the level the project's Makefiles select (-std=c89): no GNU keywords, <math.h> without the C99 macros
+    # (NAN, INFINITY, signbit ... only when the header supplies its own); only for modules that do not use f32/f64 min / max,
+    # whose helper macros need signbit
+    'gcc-O0-c89': ('gcc', ['-O0', '-std=c89']),
+    'gcc-O2-c89': ('gcc', ['-O2', '-std=c89']),
+    'clang-O2-c89': ('clang', ['-O2', '-std=c89']),
     # ABIs whose plain char is unsigned (ARM, PowerPC, s390): -funsigned-char gives the same typedef semantics on this host
     'gcc-O1-uchar': ('gcc', ['-O1', '-funsigned-char']),
     'clang-O2-uchar': ('clang', ['-O2', '-funsigned-char']),
